@@ -64,7 +64,7 @@ def run_scenario(sc: dict):
     net = simnet.SimNet(cl)
     tpn = lambda tp: f"{tp.topic}-{tp.partition}"  # noqa: E731
     info = {"hang": None, "exc": None}
-    st_tp, keep = {}, []
+    st_tp, st_asg, keep = {}, {}, []
 
     W = observe.Wrappers()
 
@@ -75,6 +75,7 @@ def run_scenario(sc: dict):
         if ex is None:
             for tp, st in self_._tp_state.items():
                 st_tp[id(st)] = tpn(tp)
+                st_asg[id(st)] = self_
                 keep.append(st)
 
     W.wrap(Assignment, "__init__", after=after_assignment_init)
@@ -83,7 +84,10 @@ def run_scenario(sc: dict):
            after=lambda s, a, k, r, e: log.emit("Adopt", c=who(), tps=sorted(tpn(t) for t in a[0]), ok=e is None))
     W.wrap(Assignment, "_unassign", after=lambda s, a, k, r, e: log.emit("Unassign", c=who()))
     W.wrap(TopicPartitionState, "reset_to",
-           after=lambda s, a, k, r, e: log.emit("ResetTo", c=who(), tp=st_tp.get(id(s), "?"), off=a[0]))
+           after=lambda s, a, k, r, e: log.emit("ResetTo", c=who(), tp=st_tp.get(id(s), "?"), off=a[0],
+                                                # a late lookup result may land on the state object of an assignment
+                                                # that was replaced meanwhile: nobody reads that object any more
+                                                dropped=not getattr(st_asg.get(id(s)), "active", True)))
 
     def pos_of(fr):
         st = fr._assignment.state_value(fr._topic_partition)
@@ -209,6 +213,25 @@ def run_scenario(sc: dict):
                 extra.append(asyncio.ensure_future(ender(f"c{i}", m["end"][0], m["end"][1])))
             if m.get("resub"):
                 extra.append(asyncio.ensure_future(resub(f"c{i}", m["resub"][0], m["resub"][1])))
+        for t_, topic_, p_, k_ in sc.get("appends", []):
+            # records produced while the group is running (a rebalance may be in progress when they arrive)
+            def do_append(topic_=topic_, p_=p_, k_=k_):
+                pl = cl.parts[(topic_, p_)]
+                simcluster.build_log(pl, [{"kind": "data", "offs": list(range(pl.leo, pl.leo + k_)), "last": pl.leo + k_ - 1,
+                                           "magic": 2}])
+            loop.call_later(t_, do_append, context=cl.ctx)
+        if sc.get("slow_offset_fetch") or sc.get("noleader"):
+            orig_plan = director.plan
+
+            def plan(cluster, ctx):
+                pln = orig_plan(cluster, ctx)
+                if ctx.api == "OffsetFetch" and sc.get("slow_offset_fetch"):
+                    pln.delay_out = max(pln.delay_out, sc["slow_offset_fetch"])
+                return pln
+            director.plan = plan
+            for topic_, p_, dur_ in sc.get("noleader", []):
+                director.stale[(topic_, p_)] = -1
+                loop.call_later(dur_, lambda k=(topic_, p_): director.stale.pop(k, None), context=cl.ctx)
         if sc.get("failover"):
             t, node, keep_state = sc["failover"]
             loop.call_later(t, lambda: gsim.failover(GROUP, node, keep_state=keep_state), context=cl.ctx)
@@ -233,7 +256,7 @@ def run_scenario(sc: dict):
         log.emit("End", live=live, fin=fin, ggen=g.generation, gstate=g.state, gmembers=sorted(g.members),
                  joins_in_window=sum(1 for e in window if e["e"] == "JoinRequest"),
                  committed={f"{t}-{p}": g.offsets.get((t, p), (-1, ""))[0] for (t, p) in cl.parts})
-        log.emit("EndDelivery", live=live)
+        log.emit("EndDelivery", live=live, leo={f"{t}-{p}": pl.leo for (t, p), pl in cl.parts.items()})
         for n in live:
             stopped[n] = True
             OWNER.set(n)
